@@ -1,7 +1,7 @@
 SPECIFICATION MCSpec
 CONSTANTS Keys = {1, 2, 3}
           Vals = {1}
-          Maxes = {0, 1, 2, 3}
+          Maxes <- MaxesSmall
           MaxVal = 3
           IsSet = TRUE
           None <- NoneNil
@@ -10,6 +10,6 @@ CONSTANTS Keys = {1, 2, 3}
           EK = 0
 VIEW View
 ACTION_CONSTRAINT DumpT
-INVARIANTS Bounded NoDup DomOK SetOK RefuseOK
-PROPERTIES FirstAtHead LastAtTail PlainAppends PlainKeeps UpdateKeepsKeys OthersKeepOrder EvictOpposite SortPermutes RemoveExact LRUMoves NoneIsInert
+INVARIANTS NoDup DomOK SetOK RefuseOK
+PROPERTIES FirstAtHead LastAtTail PlainAppends PlainKeeps UpdateKeepsKeys OthersKeepOrder EvictOpposite SortPermutes RemoveExact LRUMoves NoneIsInert LazyBoundP SetMaxInert OnlyNewKeyEvicts
 CHECK_DEADLOCK FALSE
